@@ -131,6 +131,19 @@ func NewHTTP(name string, useTLS bool, rec *Recorder) *HTTPTarget {
 	return t
 }
 
+// NewHTTP2 starts a recording HTTPS server on loopback that offers HTTP/2 (ALPN h2) as well as HTTP/1.1.
+func NewHTTP2(name string, rec *Recorder) *HTTPTarget {
+	t := &HTTPTarget{Name: name, rec: rec, stop: make(chan struct{})}
+	t.Srv = httptest.NewUnstartedServer(http.HandlerFunc(t.handle))
+	t.Srv.Config.ConnState = func(c net.Conn, s http.ConnState) {
+		rec.add(Event{Ev: "Conn", Server: name, Conn: c.RemoteAddr().String(), State: s.String(), TLS: true})
+	}
+	t.Srv.Config.ErrorLog = log.New(io.Discard, "", 0)
+	t.Srv.EnableHTTP2 = true
+	t.Srv.StartTLS()
+	return t
+}
+
 func bodyAllowed(status int) bool {
 	return !(status >= 100 && status <= 199 || status == 204 || status == 304)
 }
